@@ -6,6 +6,7 @@ import (
 	"path/filepath"
 	"strconv"
 	"strings"
+	"time"
 
 	"github.com/XiXi-2024/xixi-kv/verifrt/iorec"
 )
@@ -36,6 +37,10 @@ func parseOp(part string) Op {
 	}
 	f := strings.Fields(part)
 	op := Op{K: f[0]}
+	if f[0] == "merge" && len(f) > 1 {
+		op.Arg, _ = strconv.Atoi(f[1])
+		return op
+	}
 	if len(f) > 1 {
 		op.Key = f[1]
 	}
@@ -76,8 +81,9 @@ func debugTrace(cfg Cfg, trace string) {
 	defer w.Destroy()
 	fmt.Println("open:", w.Open())
 	for i, op := range ops {
+		t0 := time.Now()
 		ar := w.Apply(op)
-		fmt.Printf("step %d %s -> %s %s\n", i, op, errClass(ar.Err), ar.Detail)
+		fmt.Printf("step %d %s -> %s %s (%v)\n", i, op, errClass(ar.Err), ar.Detail, time.Since(t0))
 		if ar.Err != nil {
 			fmt.Println("   ", panicDetail(ar.Err))
 		}
